@@ -977,7 +977,10 @@ def af_broadcast_to(a, shape, subok=False):
 
 
 def af_broadcast_arrays(*args, subok=False):
+    # (dispatched here only when at least one argument is symbolic: lift the others so that later mixed
+    # indexing / comparisons stay inside the shim)
     args = [np.asarray(_as_objarr(a)) for a in args]
+    args = [a if a.dtype == object else (np.asarray(obj(a), dtype=object) if a.dtype.kind in 'biuf' else a) for a in args]
     shape = np.broadcast_shapes(*[a.shape for a in args])
     return tuple(wrap(_bt(a.view(np.ndarray), shape))
                  if a.dtype == object else np.broadcast_to(a, shape) for a in args)
@@ -1102,6 +1105,24 @@ def af_sort(a, axis=-1, **kw):
     return wrap(np.array(sort_network(list(a)) + [None], dtype=object)[:-1])
 
 
+def af_unique(ar, return_index=False, return_inverse=False, return_counts=False, axis=None, **kw):
+    if return_index or return_inverse or return_counts or axis is not None:
+        raise EngineLimit('unique options')
+    xs = sort_network(list(np.asarray(obj(ar), dtype=object).ravel()))
+    out = []
+    for x in xs:
+        if out and bool(x == out[-1]):          # data-dependent length: solver-decided fork
+            continue
+        out.append(x)
+    r = np.empty(len(out), dtype=object)
+    for i, x in enumerate(out):
+        r[i] = x
+    res = wrap(r)
+    if len(out) == 0:
+        res._empty_kind = 'f'
+    return res
+
+
 def af_shape(a):
     return np.asarray(_as_objarr(a)).shape
 
@@ -1223,7 +1244,7 @@ AF = {
     np.round: af_round, np.around: af_round, np.sort: af_sort,
     np.shape: af_shape, np.size: af_size, np.ndim: af_ndim, np.copy: af_copy,
     np.linspace: af_linspace, np.meshgrid: af_meshgrid, np.array_equal: af_array_equal,
-    np.diff: af_diff, np.cumsum: af_cumsum, np.clip: af_clip, np.searchsorted: af_searchsorted,
+    np.diff: af_diff, np.cumsum: af_cumsum, np.clip: af_clip, np.searchsorted: af_searchsorted, np.unique: af_unique,
 }
 
 # numpy functions whose python implementation only does structural work and
@@ -1335,6 +1356,12 @@ class Proxy(types.ModuleType):
             return SymReal(a.v + e if up else a.v - e, Or_(a.nan, b.nan), FALSE)
         return np.nextafter(a, b)
 
+    def broadcast_arrays(self, *args, **kw):
+        if active():
+            # while exploring, the results may later be indexed by symbolic masks: keep them inside the shim
+            return af_broadcast_arrays(*args, **kw)
+        return np.broadcast_arrays(*args, **kw)
+
     def cos(self, x, *a, **kw):
         if active() and isinstance(x, (float, int, np.floating, np.integer)) and not a and not kw:
             stub_hit('S-trig-dyadic')
@@ -1374,6 +1401,13 @@ P = Proxy('np_proxy')
 
 def as_strided_subok(x, shape=None, strides=None, subok=False, writeable=True):
     from numpy.lib.stride_tricks import as_strided
+    if isinstance(x, np.ndarray) and x.dtype == object and x.size == 0 and shape is not None and int(np.prod(shape)) > 0:
+        # empty arrays report stride 0, so glue's unbroadcast() asks for a 1-element view of a 0-size buffer: with real
+        # floats that reads an arbitrary (unused) value, with object arrays it would dereference garbage
+        out = np.empty(tuple(int(v) for v in shape), dtype=object)
+        for i in np.ndindex(*out.shape):
+            out[i] = SymReal(ZERO)
+        return wrap(out)
     return as_strided(x, shape=shape, strides=strides, subok=True, writeable=writeable)
 
 
@@ -1569,3 +1603,11 @@ Sym.any = lambda self, *a, **kw: sbool(self)
 Sym.all = lambda self, *a, **kw: sbool(self)
 Sym.squeeze = lambda self, *a, **kw: self
 Sym.strides = ()
+
+
+class ForkIndexArray(np.ndarray):
+    """a *concrete* array (e.g. category labels) that may be indexed by symbolic masks / integers: the index is
+    concretised by solver-controlled forks (plain ndarrays cannot be indexed by symbolic arrays at all)"""
+
+    def __getitem__(self, k):
+        return np.ndarray.__getitem__(self, _prep_index(k))
